@@ -36,7 +36,7 @@ RULE = ("solver = (problem spec, parameter spec, op list of 2..6 ops over I1,I2,
         "{0.5..0.003}, r in [1.5,5], itersLimit in {3..60}, evolventDensity 3..12, refineSolution 25%; 10% default "
         "parameters (1-D problems only, so that Solve stays short), 12% of the others the default object with step operations only, 28% ONE "
         "explicit SolverParameters object shared by the solvers of the case; logged problems up to dimension 6 (N*density > 52); 8% "
-        "'hash twins' (two configurations differing only in values with equal Python hash: -1/-2, 0.0/-0.0). Schedule: random interleaving (thorough: plus all "
+        "7% a running solver FORKED with copy.deepcopy after 1..5 of its operations, original and copy continuing interleaved (reference for the copy: a solver built afresh making the same operations, no copy involved); 'hash twins' (two configurations differing only in values with equal Python hash: -1/-2, 0.0/-0.0). Schedule: random interleaving (thorough: plus all "
         "interleavings of two lists). Non-trivial: at least two solvers each perform a trial and at least one Solution "
         "object is re-read after another solver has moved. Distinct by the literal case description.")
 
@@ -104,6 +104,20 @@ def build(spec, shared=None, states=None):
     from iOpt.solver import Solver
     from iOpt.solver_parametrs import SolverParameters
     p = spec["problem"]
+    if p["kind"] == "fork":
+        # the caller FORKS a running solver with copy.deepcopy (try another continuation from the same state): the copy is a solver
+        # instance of its own - whatever it does later must not reach the original, and vice versa
+        import copy
+        parent = states[p["of"]] if states is not None else None
+        if parent is not None:
+            sv = copy.deepcopy(parent["solver"])
+            return {"problem": sv.problem, "solver": sv, "held": [], "done": 0, "spec": spec, "owners": None}
+        # reference: no copy at all - a solver built afresh makes the parent's first operations, then the fork's own
+        par = p["parent"]
+        st = build(par)
+        for op in par["ops"][:p["after"]]:
+            do_op(st, op)
+        return {"problem": st["problem"], "solver": st["solver"], "held": [], "done": 0, "spec": spec, "owners": None}
     if p["kind"] == "same":
         # ONE Problem object handed to several solvers (e.g. to compare two values of r on the same problem): whatever a solver
         # attaches to / changes on the problem object reaches the others
@@ -310,6 +324,7 @@ def twin_specs(r):
 def gen_case(r, short=False):
     k = 2 if (short or r.random() < 0.7) else 3
     twins = big = same_problem = False
+    fork = None
     if not short and r.random() < 0.08:
         specs = twin_specs(r)
         k = 2
@@ -347,6 +362,24 @@ def gen_case(r, short=False):
         k = 2
         twins = True          # (references from fresh interpreters: process-wide state also contaminates in-process references)
     elif not short and r.random() < 0.07:
+        # a running solver is forked with copy.deepcopy after `after` of its operations; original and copy then go on, interleaved
+        n = r.choice([1, 1, 2, 3])
+        lo, hi = oc.gen_box(r, n)
+        par = {"problem": {"kind": "logged", "spec": objectives.gen_spec(r, n), "lower": lo, "upper": hi},
+               "params": {"eps": r.choice([0.05, 0.01, 0.003]), "r": round(r.uniform(1.5, 5), 2), "itersLimit": r.choice([20, 35, 60]),
+                          "evolventDensity": r.randint(4, 10), "refineSolution": r.random() < 0.2},
+               "ops": [r.choice(["I1", "I2", "I3", "I3", "G"]) for _ in range(r.randint(3, 6))]}
+        if r.random() < 0.3:
+            par["ops"].append("S")
+        after = r.randint(1, len(par["ops"]) - 1)
+        if not any(o[0] == "I" for o in par["ops"][:after]):
+            par["ops"][0] = "I3"
+        frk = {"problem": {"kind": "fork", "of": 0, "after": after, "parent": par}, "params": par["params"],
+               "ops": [r.choice(["I1", "I2", "I3", "G", "S", "R"]) for _ in range(r.randint(2, 5))]}
+        specs = [par, frk]
+        k = 2
+        fork = after
+    elif not short and r.random() < 0.07:
         # a solver in a high dimension (N * default density 10 > 52) next to others, all on the default / one shared parameters object
         n = r.choice([6, 7])
         lo, hi = oc.gen_box(r, n)
@@ -372,6 +405,11 @@ def gen_case(r, short=False):
     case = {"solvers": specs, "schedule": sched, "construct": r.choice(["upfront", "lazy"]), "order": order}
     if same_problem:
         case["construct"], case["order"] = "upfront", [0, 1]
+    if fork is not None:
+        rest = [0] * (len(specs[0]["ops"]) - fork) + [1] * (len(specs[1]["ops"]) - 1)
+        r.shuffle(rest)
+        case["schedule"] = [0] * fork + [1] + rest       # the copy is taken right before its first operation (lazy construction)
+        case["construct"], case["order"] = "lazy", [0, 1]
     shared_state = any(not isinstance(s_["params"], dict) for s_ in specs)
     refines = sum(1 for s_ in specs if "R" in s_["ops"] or (isinstance(s_["params"], dict) and s_["params"]["refineSolution"]
                                                            and "S" in s_["ops"]))
